@@ -20,6 +20,8 @@ ALLOC_OK = {
     "result::Result::map_err": "moves", "result::Result::map": "moves", "option::Option::ok_or": "moves", "option::Option::map": "moves",
     "vec::Vec::into_boxed_slice": "shrinks in place; no allocation larger than the vector it consumes",
     "collections::HashMap::insert": "one map slot (amortised growth proportional to the number of cached ranges, each of which required a successful read)",
+    "collections::HashMap::entry": "as insert: may reserve one map slot for the requested key",
+    "collections::hash_map::VacantEntry::insert": "as insert: fills the slot reserved by entry()",
     "collections::HashMap::clear": "frees",
     "collections::HashMap::contains_key": "no allocation",
     "collections::HashMap::get": "no allocation",
@@ -189,8 +191,11 @@ def _alloc_guard_n(an, n, facts):
         if an.names.get(i) == "stream_len" and _bound_to_stream_len(an, i):
             sl.append(T.param(i))
     e64 = T.cast("IntToInt", end, "usize", "u64")
+    # `end as u64` may also be written u64::try_from(end)? / end.try_into()?  (value-preserving where it succeeds)
+    e64s = [e64] + [T.payload(y, "Ok") for f in cs.facts for z in f[1:] if hasattr(z, "subterms") for y in z.subterms()
+                    if y.op == "call" and y.args[0] in ("convert::TryFrom::try_from", "convert::TryInto::try_into") and len(y.args[2]) == 1 and y.args[2][0] is end]
     for slt in {x for x in sl}:
-        if pv.le(e64, slt, cs.facts):
+        if any(pv.le(e_, slt, cs.facts) for e_ in e64s):
             return "len(range) <= range.end <= self.stream_len (a guard that fails with an error otherwise dominates the allocation)"
         for f in cs.facts:
             if f[0] == "var" and f[2] == "Some" and f[1].op == "call" and f[1].args[0] == "u64::checked_sub" and f[1].args[2][0] is slt and f[1].args[2][1] is e64:
